@@ -535,7 +535,7 @@ func corpus(c *hx.Ctx) {
 	l.query(c, "loc p1")
 	l.query(c, "loc p2")
 	l.query(c, "get p1")
-	// finding layer_crossing: a chain that alternates between the layers
+	// fixed (fixes/C16-union-refs-closure.patch): a chain that alternates between the layers
 	base, _ = skelx.BuildBasic([]string{"p1=;v=b", "r5=p1;v=b"}, 1)
 	ov, _ = skelx.BuildBasic([]string{"r6=r5;v=o"}, 1)
 	l = &layered{kind: "overlay", base: base, overlay: ov, w: ingest.NewOverlayWorld(ov, base)}
